@@ -293,6 +293,8 @@ pub async fn run_sender_with_config(
                             conn.loss_degraded =
                                 cc_snap.map(|s| s.loss_degraded).unwrap_or(false);
                         }
+                        #[cfg(feature = "verif-hooks")]
+                        verif_hooks::stamp_log::record(&connections);
                         shared_stats.update(
                             &connections,
                             &config.snapshot(),
